@@ -117,7 +117,7 @@ CHECKS = {
             "E1+E3", "DESIGN.md#c20"),
     "C18": ("model_checking",
             "explicit-state BFS over register/unregister/query/clock histories replayed on the real UDP registry main loop (simulated UDP layer, virtual clock) against a reference dict model and notification log; exhaustive malformed-datagram menu; TCP registry scenarios on simulated sockets under the scheduler",
-            "All histories to depth 6 (quick) / 8 (thorough) over 2 hosts x 2 ports x 3 alias sets (two overlapping case-insensitively, one disjoint), 5 query names and clock advances of T/2, 3T/4 and T+1, de-duplicated by (registrations with relative ages, stale ones merged; log-implied membership); a removal notification never names a live member; "
+            "All histories to depth 6 (quick) / 7 (thorough) over 2 hosts x 2 ports x 3 alias sets (two overlapping case-insensitively, one disjoint), 5 query names and clock advances of T/2, 3T/4 and T+1, de-duplicated by (registrations with relative ages, stale ones merged; log-implied membership); a removal notification never names a live member; "
             "every malformed datagram (grammar values in each field, all 1-byte and a grid of 2-byte strings, all truncations, odd command names) followed by a valid query; all arrival orders of silent / partial / garbage / well-behaved TCP clients.",
             "expiry notifications are compared for consistency (pruning is lazy, at the next query); ties in refresh time in any order",
             "E3+E4+E5", "DESIGN.md#c18"),
